@@ -58,6 +58,22 @@ type cliWorld struct {
 	procs  []*cliProc
 	byPid  map[int]*cliProc
 	tp     *simrt.Tape
+	// specFor scripts the step children of CLI processes that blackdagger itself spawned (client.Start,
+	// Retry, Restart from a server or the daemon): given the DAG file path, it returns that invocation's script.
+	specFor func(path string, sub string) *DagSpec
+}
+
+// adopt registers a CLI process that was not started by the harness.
+func (cw *cliWorld) adopt(pc *simexec.ProcCtx) {
+	if cw.byPid[pc.Proc.Pid] != nil || len(pc.Args) < 2 {
+		return
+	}
+	cp := &cliProc{idx: len(cw.procs), proc: pc.Proc, args: append([]string{}, pc.Args[1:]...), sub: pc.Args[1]}
+	if cw.specFor != nil && (cp.sub == "start" || cp.sub == "retry" || cp.sub == "restart") {
+		cp.spec = cw.specFor(pc.Args[len(pc.Args)-1], cp.sub)
+	}
+	cw.procs = append(cw.procs, cp)
+	cw.byPid[pc.Proc.Pid] = cp
 }
 
 func newCLIWorld(w *simrt.World, tp *simrt.Tape) *cliWorld {
@@ -83,7 +99,10 @@ func newCLIWorld(w *simrt.World, tp *simrt.Tape) *cliWorld {
 		return nil
 	}
 	simexec.Register(w, "/sim/bin/simstep", cw.truth.StepProgram)
-	simexec.Register(w, cliPath, func(pc *simexec.ProcCtx) int { return cmd.VerifRun(pc.Args[1:]) })
+	simexec.Register(w, cliPath, func(pc *simexec.ProcCtx) int {
+		cw.adopt(pc)
+		return cmd.VerifRun(pc.Args[1:])
+	})
 	return cw
 }
 
